@@ -581,6 +581,7 @@ coap_ws_read(coap_session_t *session, uint8_t *data, size_t datalen) {
   ssize_t extra_hdr_len = 0;
   ssize_t ret;
   uint8_t op_code;
+  uint8_t *rd_data;
 
   if (!session->ws) {
     session->ws = coap_malloc_type(COAP_STRING, sizeof(coap_ws_state_t));
@@ -630,6 +631,14 @@ coap_ws_read(coap_session_t *session, uint8_t *data, size_t datalen) {
     if (session->ws->hdr_ofs == 0)
       return 0;
   }
+
+  /*
+   * The payload of a frame can arrive over several calls: it is assembled in
+   * the WebSockets state and handed over to the caller once it is complete.
+   */
+  rd_data = session->ws->rd_data;
+  if (datalen > sizeof(session->ws->rd_data))
+    datalen = sizeof(session->ws->rd_data);
 
   /* Get WebSockets frame if not already completely in */
   if (!session->ws->all_hdr_in) {
@@ -716,13 +725,14 @@ coap_ws_read(coap_session_t *session, uint8_t *data, size_t datalen) {
       /* data in latter part of header */
       if (ret <= bytes_size) {
         /* copy across all the available data */
-        memcpy(data, &session->ws->rd_header[2 + extra_hdr_len], ret);
+        memcpy(rd_data, &session->ws->rd_header[2 + extra_hdr_len], ret);
         session->ws->data_ofs = ret;
         if (ret == bytes_size) {
           if (session->ws->state == COAP_SESSION_TYPE_SERVER) {
             /* Need to unmask the data */
-            coap_ws_mask_data(session, data, bytes_size);
+            coap_ws_mask_data(session, rd_data, bytes_size);
           }
+          memcpy(data, rd_data, bytes_size);
           session->ws->all_hdr_in = 0;
           session->ws->hdr_ofs = 0;
           op_code = session->ws->rd_header[0] & WS_B0_OP_MASK;
@@ -740,12 +750,13 @@ coap_ws_read(coap_session_t *session, uint8_t *data, size_t datalen) {
         }
       } else {
         /* more information in header than given data size */
-        memcpy(data, &session->ws->rd_header[2 + extra_hdr_len], bytes_size);
+        memcpy(rd_data, &session->ws->rd_header[2 + extra_hdr_len], bytes_size);
         session->ws->data_ofs = bytes_size;
         if (session->ws->state == COAP_SESSION_TYPE_SERVER) {
           /* Need to unmask the data */
-          coap_ws_mask_data(session, data, bytes_size);
+          coap_ws_mask_data(session, rd_data, bytes_size);
         }
+        memcpy(data, rd_data, bytes_size);
         /* set up partial header for the next read */
         memmove(session->ws->rd_header,
                 &session->ws->rd_header[2 + extra_hdr_len + bytes_size],
@@ -768,7 +779,7 @@ coap_ws_read(coap_session_t *session, uint8_t *data, size_t datalen) {
     return -1;
   }
   ret = session->sock.lfunc[COAP_LAYER_WS].l_read(session,
-                                                  &data[session->ws->data_ofs],
+                                                  &rd_data[session->ws->data_ofs],
                                                   session->ws->data_size - session->ws->data_ofs);
   if (ret <= 0)
     return ret;
@@ -776,8 +787,9 @@ coap_ws_read(coap_session_t *session, uint8_t *data, size_t datalen) {
   if (session->ws->data_ofs == session->ws->data_size) {
     if (session->ws->state == COAP_SESSION_TYPE_SERVER) {
       /* Need to unmask the data */
-      coap_ws_mask_data(session, data, session->ws->data_size);
+      coap_ws_mask_data(session, rd_data, session->ws->data_size);
     }
+    memcpy(data, rd_data, session->ws->data_size);
     session->ws->all_hdr_in = 0;
     session->ws->hdr_ofs = 0;
     session->ws->data_ofs = 0;
